@@ -39,7 +39,8 @@ for d in sorted(glob.glob("/verif/seeded/*/")):
         m["own_check_recheck"] = {"at_commit": head, "result": own, "message": res[m["property"]][1]}
         if own == "CAUGHT" and m["property"] not in m.get("caught_by", []): m.setdefault("caught_by", []).append(m["property"])
         if own != "CAUGHT" and m["property"] in m.get("caught_by", []): m["caught_by"].remove(m["property"])
-    json.dump(m, open(d + "meta.json", "w"), indent=1)
+    if not os.environ.get("RECHECK_NOWRITE"):     # a run with another VERIF_SEED only reports
+        json.dump(m, open(d + "meta.json", "w"), indent=1)
     if own != "CAUGHT": missed.append(tag)
     print(tag, "own:", own, ("| " + " ".join(c for c, v in res.items() if v[0] == "CAUGHT")) if full else "", flush=True)
 print("own-check misses:", missed)
